@@ -19,7 +19,7 @@ def kinds_sent_by(ctx, f):
     direct = {}
     forwards_param = set()
     calls_of = {}
-    for b in f.bodies:
+    for b in f.analysed_bodies():
         if not b.nname.startswith('Foca::'):
             continue
         ks = set()
